@@ -1,4 +1,65 @@
-From TV Require Import Base.Prelude Base.Winnow Model.Datetime Model.DatetimeStd Extract.Commands.
-Theorem C12_placeholder : std_from_str [] = None.
-Proof. reflexivity. Qed.
-Print Assumptions C12_placeholder.
+(* Props/C12.v — property C12: the standalone date-time parser (toml_datetime `FromStr`) and
+   the document grammar's date-time agree, accept only RFC 3339 values, truncate the fraction
+   to nine digits, and `Display` output parses back.  Statements only; the proofs are in
+   Proofs/DatetimeEq.v. *)
+From TV Require Import Base.Prelude Base.Winnow Gen.Consts Model.Datetime Model.DatetimeStd
+  Spec.DatetimeSpec Proofs.DatetimeEq.
+
+(* The two parsers compute the same partial function on all byte strings. *)
+Theorem C12_agree : forall s : bytes, std_from_str s = doc_datetime s.
+Proof. exact agree. Qed.
+Print Assumptions C12_agree.
+
+(* Everything accepted is one of the four TOML shapes with RFC 3339 field ranges. *)
+Theorem C12_closed : forall s d, std_from_str s = Some d -> in_range d = true.
+Proof. exact closed. Qed.
+Print Assumptions C12_closed.
+
+(* Display output of an in-range value parses back to that value, with both parsers. *)
+Theorem C12_print_parse : forall d, in_range d = true ->
+  std_from_str (display_datetime d) = Some d /\ doc_datetime (display_datetime d) = Some d.
+Proof. exact print_parse. Qed.
+Print Assumptions C12_print_parse.
+
+(* Fraction digits past the ninth are accepted and ignored (truncation, not rounding). *)
+Theorem C12_truncation : forall ds es,
+  length ds = 9%nat -> forallb is_digit ds = true -> forallb is_digit es = true ->
+  std_from_str ([x30; x30; x3a; x30; x30; x3a; x30; x30; x2e] ++ ds ++ es)
+  = Some (mkDT None (Some (mkTime 0 0 0 (dec_value ds))) None).
+Proof. exact truncation. Qed.
+Print Assumptions C12_truncation.
+
+(* Non-vacuity: each of the four kinds is accepted on a concrete string. *)
+(* "1979-05-27T07:32:00.5-07:00" *)
+Example C12_ex_offset_date_time :
+  std_from_str [x31; x39; x37; x39; x2d; x30; x35; x2d; x32; x37; x54; x30; x37; x3a; x33; x32; x3a; x30; x30; x2e; x35; x2d; x30; x37; x3a; x30; x30]
+  = Some (mkDT (Some (mkDate 1979 5 27)) (Some (mkTime 7 32 0 500000000)) (Some (OffCustom (-420)))).
+Proof. vm_compute; reflexivity. Qed.
+
+(* "1979-05-27 07:32:00" *)
+Example C12_ex_local_date_time :
+  std_from_str [x31; x39; x37; x39; x2d; x30; x35; x2d; x32; x37; x20; x30; x37; x3a; x33; x32; x3a; x30; x30]
+  = Some (mkDT (Some (mkDate 1979 5 27)) (Some (mkTime 7 32 0 0)) None).
+Proof. vm_compute; reflexivity. Qed.
+
+(* "2000-02-29" *)
+Example C12_ex_local_date :
+  std_from_str [x32; x30; x30; x30; x2d; x30; x32; x2d; x32; x39]
+  = Some (mkDT (Some (mkDate 2000 2 29)) None None).
+Proof. vm_compute; reflexivity. Qed.
+
+(* "23:59:60.999999999999" *)
+Example C12_ex_local_time :
+  std_from_str [x32; x33; x3a; x35; x39; x3a; x36; x30; x2e; x39; x39; x39; x39; x39; x39; x39; x39; x39; x39; x39; x39]
+  = Some (mkDT None (Some (mkTime 23 59 60 999999999)) None).
+Proof. vm_compute; reflexivity. Qed.
+
+Example C12_ex_in_range :
+  in_range (mkDT (Some (mkDate 1979 5 27)) (Some (mkTime 7 32 0 500000000)) (Some (OffCustom (-420)))) = true.
+Proof. vm_compute; reflexivity. Qed.
+
+(* and the ranges do exclude something: hour 24 is neither in range nor accepted *)
+Example C12_ex_out_of_range :
+  in_range (mkDT None (Some (mkTime 24 0 0 0)) None) = false
+  /\ std_from_str [x32; x34; x3a; x30; x30; x3a; x30; x30] = None.
+Proof. vm_compute; split; reflexivity. Qed.
